@@ -176,6 +176,11 @@ func runC07(c *core.Ctx) {
 		} else {
 			X = w.Basics[0]
 		}
+		if r.Intn(5) == 0 {
+			// a name the book defines is never an element of the totals: every single-element view of it is empty
+			X = w.Recipes[r.Intn(len(w.Recipes))]
+			c.Count("tuples_with_a_recipe_name_as_element", 1)
+		}
 		var totX *obs.TotalRow
 		for k := range totals {
 			if totals[k].Name == X {
